@@ -48,9 +48,10 @@ package synchronizer
 //@   modifies s.timeouts, s.timeouts[*]
 
 // ---- sync info verification: which evidence an accepted sync info carries.
-// evid(a, si, v): si holds a valid certificate (QC, TC or aggregate QC) for exactly view v,
-// or v is 0 (nothing usable present).
-//@ pred evid(a *cert.Authority, si hotstuff.SyncInfo, v hotstuff.View) = v == 0 || (si.tc != nil && cert.tcok(a, *si.tc) && si.tc.view == v) || (si.qc != nil && cert.qcok(a, *si.qc) && si.qc.view == v) || (si.aggQC != nil && cert.aggok(a, *si.aggQC) && si.aggQC.view == v)
+// evid(a, si, v): si holds a certificate (QC, TC or aggregate QC) for exactly view v that
+// authority a accepted (see cert.qcAccepted; what acceptance means is C02), or v is 0
+// (nothing usable present).
+//@ pred evid(a *cert.Authority, si hotstuff.SyncInfo, v hotstuff.View) = v == 0 || (si.tc != nil && cert.tcAccepted(a, *si.tc) && si.tc.view == v) || (si.qc != nil && cert.qcAccepted(a, *si.qc) && si.qc.view == v) || (si.aggQC != nil && cert.aggAccepted(a, *si.aggQC) && si.aggQC.view == v)
 
 //@ func (*Simple).VerifySyncInfo property C07
 //@   requires s.auth != nil && cert.awf(s.auth) && hotstuff.genesisBlock != nil
@@ -65,3 +66,44 @@ package synchronizer
 //@   ensures [evidence] err == nil ==> evid(s.auth, syncInfo, view)
 //@   ensures [inv] cert.awf(s.auth)
 //@   modifies s.auth.blockchain.blocks[*], s.auth.blockchain.blockAtHeight[*], s.auth.blockchain.pendingFetch[*], s.auth.blockchain.eventLoop.handlers[*], alloc
+
+// ---- interfaces used by the synchronizer (unknown code)
+//@ pure func ruleAuth(r TimeoutRuler) *cert.Authority
+//@ pure func vsiView(r TimeoutRuler, si hotstuff.SyncInfo) hotstuff.View
+//@ interface TimeoutRuler.VerifySyncInfo
+//@   ensures [view] view == vsiView(self, arg0)
+//@   ensures [qc-valid] err == nil && qc != nil ==> cert.qcok(ruleAuth(self), *qc)
+//@   ensures [evidence] err == nil ==> evid(ruleAuth(self), arg0, view)
+//@   preserves @std
+//@   ensures blockchain.storeskept() && core.cfgstable()
+//@ interface TimeoutRuler.LocalTimeoutRule
+//@   ensures result1 == nil ==> result0 != nil && result0.View == arg0
+//@   preserves @std
+//@   ensures blockchain.storeskept() && core.cfgstable()
+//@ interface ViewDuration.Duration
+//@   preserves @std
+//@   ensures blockchain.storeskept() && core.cfgstable()
+//@ interface ViewDuration.ViewStarted
+//@   preserves @std
+//@   ensures blockchain.storeskept() && core.cfgstable()
+//@ interface ViewDuration.ViewSucceeded
+//@   preserves @std
+//@   ensures blockchain.storeskept() && core.cfgstable()
+//@ interface ViewDuration.ViewTimeout
+//@   preserves @std
+//@   ensures blockchain.storeskept() && core.cfgstable()
+
+//@ pred swf(s *Synchronizer) = s.state != nil && protocol.vswf(s.state) && s.auth != nil && s.auth == s.state.auth && ruleAuth(s.timeoutRules) == s.auth && s.timeoutRules != nil && s.duration != nil && s.leaderRotation != nil && s.sender != nil && s.eventLoop != nil && s.config != nil && s.proposer != nil && consensus.pwf(s.proposer) && s.voter != nil && s.proposer.voter == s.voter && s.timeouts != nil && s.timer.timerDoNotUse != nil && (s.lastTimeout != nil ==> s.voter.lastVotedView >= s.lastTimeout.View)
+
+// advanceView: the view moves by at most one step, only on the evidence VerifySyncInfo
+// accepted for a view at least the current one, the high QC only moves forward, and the view
+// change is signalled to the event loop before anything else is emitted.
+//@ func (*Synchronizer).advanceView property C07
+//@   requires swf(s) && hotstuff.genesisBlock != nil && blockchain.hashdet() && s.state.view < 18446744073709551615
+//@   ensures [step-one] s.state.view == old(s.state.view) || s.state.view == old(s.state.view) + 1
+//@   ensures [evidence] s.state.view != old(s.state.view) ==> evid(s.auth, syncInfo, vsiView(s.timeoutRules, syncInfo)) && vsiView(s.timeoutRules, syncInfo) >= old(s.state.view)
+//@   ensures [highqc-monotone] s.state.highQC.view >= old(s.state.highQC.view)
+//@   ensures [signalled] s.state.view != old(s.state.view) ==> tracelen(added) > old(tracelen(added)) && istype(traceev(added, 0, old(tracelen(added))), hotstuff.ViewChangeEvent) && as(traceev(added, 0, old(tracelen(added))), hotstuff.ViewChangeEvent).View == s.state.view
+//@   ensures [not-signalled-otherwise] s.state.view == old(s.state.view) ==> tracelen(added) == old(tracelen(added))
+//@   modifies s.state.view, s.state.highQC, s.lastTimeout, s.timer, trace(added)
+//@   preserves @std
